@@ -83,6 +83,8 @@ def ty(t):
         return "M"
     if k in ("fst", "snd"):
         return {"S": "Z", "M": "S"}[ty(t[1])]
+    if k == "ite":
+        return ty(t[2])
     raise AssertionError(t)
 
 
@@ -153,6 +155,8 @@ def nonneg(t):
         return True
     if k in ("add", "mul", "shl"):
         return nonneg(t[1]) and nonneg(t[2])
+    if k == "ite":
+        return nonneg(t[2]) and nonneg(t[3])
     return False
 
 
@@ -268,6 +272,8 @@ class Printer:
                 else:
                     self.names[uid] = old
             return "(sort2_by %s %s %s)" % (key, p(t[3]), p(t[4]))
+        if k == "ite":
+            return "(if %s then %s else %s)" % (strip(p(t[1])), p(t[2]), p(t[3]))
         if k == "sort2lex":
             self.need_ltb = True
             return "(sort2_lex %s %s)" % (p(t[1]), p(t[2]))
@@ -464,7 +470,44 @@ class Ev:
             bail(node, "module-level name %s is bound more than once" % name)
         self.globals[name] = v
 
+    def purity_gate(self, mod):
+        """no statement anywhere in the file (reached by an entry point or not) may rebind or mutate module-level
+        state or the classes"""
+        shared = {"cls", "self"}
+        for n in mod.body:
+            if isinstance(n, (ast.Import, ast.ImportFrom)):
+                shared |= {(a.asname or a.name).split(".")[0] for a in n.names}
+            elif isinstance(n, (ast.ClassDef, ast.FunctionDef)):
+                shared.add(n.name)
+            elif isinstance(n, (ast.Assign, ast.AnnAssign)):
+                for t in (n.targets if isinstance(n, ast.Assign) else [n.target]):
+                    shared |= {x.id for x in ast.walk(t) if isinstance(x, ast.Name)}
+
+        def root(x):
+            while isinstance(x, (ast.Attribute, ast.Subscript, ast.Call)):
+                x = x.value if not isinstance(x, ast.Call) else x.func
+            return x.id if isinstance(x, ast.Name) else None
+        for n in ast.walk(mod):
+            if isinstance(n, (ast.Global, ast.Nonlocal)):
+                bail(n, "global / nonlocal")
+            if isinstance(n, (ast.Assign, ast.AugAssign, ast.AnnAssign, ast.Delete)):
+                tgts = n.targets if isinstance(n, (ast.Assign, ast.Delete)) else [n.target]
+                for t in tgts:
+                    for x in ast.walk(t):
+                        if isinstance(x, (ast.Attribute, ast.Subscript)) and root(x) in shared:
+                            bail(n, "assignment to an attribute or an item of shared state")
+            if isinstance(n, ast.Call):
+                f = n.func
+                if isinstance(f, ast.Name) and f.id in ("setattr", "delattr", "exec", "eval", "globals", "vars", "locals",
+                                                        "__import__", "compile"):
+                    bail(n, "call of %s" % f.id)
+                if isinstance(f, ast.Attribute) and root(f.value) in shared and f.attr in (
+                        "update", "pop", "popitem", "clear", "setdefault", "__setitem__", "__delitem__", "__setattr__",
+                        "append", "extend", "insert", "remove", "sort", "reverse", "add", "discard"):
+                    bail(n, "call of the mutating method .%s on shared state" % f.attr)
+
     def scan(self, mod):
+        self.purity_gate(mod)
         for n in mod.body:
             if isinstance(n, ast.Expr) and isinstance(n.value, ast.Constant):
                 continue
@@ -572,6 +615,9 @@ class Ev:
             if isinstance(n, ast.FunctionDef):
                 if n.name in methods or n.name in fields:
                     bail(n, "%s.%s is defined more than once" % (c.name, n.name))
+                if (n.name.startswith("__") and n.name not in ("__repr__", "__str__")) or \
+                        n.name in ("_replace", "_make", "_asdict", "_fields", "_field_defaults", "count", "index"):
+                    bail(n, "%s.%s overrides tuple behaviour the translation relies on" % (c.name, n.name))
                 decs = [ast.unparse(d) for d in n.decorator_list]
                 kind = {(): "method", ("classmethod",): "classmethod", ("property",): "property",
                         ("staticmethod",): "static"}.get(tuple(decs), "opaque")
@@ -1013,6 +1059,10 @@ class Ev:
             if key in INTERFACE and isinstance(f.bound, VClass):
                 name, rty = INTERFACE[key]
                 a = f.fn.args
+                names = [x.arg for x in a.args][1:]
+                if kw and not long_ and set(kw) == set(names[len(args):]) and len(kw) == len(names) - len(args):
+                    args = args + [kw[n] for n in names[len(args):]]
+                    kw = {}
                 if kw or long_ or a.vararg or a.kwonlyargs or a.kwarg or a.defaults or len(args) != len(a.args) - 1:
                     bail(node, "call of %s.%s that is not plain positional" % key)
                 if not all(isinstance(x, VInt) for x in args):
@@ -1119,10 +1169,10 @@ class Ev:
             if not isinstance(key, (VLambda, VAttrGetter, VFunc)):
                 bail(node, "sort key %r is outside the grammar" % (key,))
             u = self.fresh()
-            kt = self.apply(key, [wrap(var(u, et))], {}, node)
-            if kt[0] != "leaf" or not isinstance(kt[1], (VInt, VBool)):
+            kv = total(simp(self.apply(key, [wrap(var(u, et))], {}, node)), (VInt, VBool))
+            if kv is None:
                 bail(node, "sort key must be a total integer-valued function of the element")
-            return leaf(VPair(("sort2by" if et == "S" else "sort2byz", u, self.as_z(kt[1], node), a.t, b.t)))
+            return leaf(VPair(("sort2by" if et == "S" else "sort2byz", u, self.as_z(kv, node), a.t, b.t)))
         return bind(self.items_of(args[0], node), go)
 
     def call_inline(self, fn, args, kw, node, closure=None):
@@ -1218,7 +1268,11 @@ def simp(t):
     if k == "bind":
         return ("bind", t[1], t[2], t[3], simp(t[4]))
     if k == "let":
-        return ("let", t[1], t[2], t[3], simp(t[4]))
+        sub = simp(t[4])
+        if sub[0] == "leaf" and isinstance(sub[1], (VStrain, VMod, VPair)) and sub[1].t[0] in ("spair", "mpair") \
+                and sub[1].t[1][0] == "var" and sub[1].t[2][0] == "var" and (sub[1].t[1][1], sub[1].t[2][1]) == tuple(t[1]):
+            return leaf(type(sub[1])(t[3]))                      # let '(x, y) := p in (x, y)  =  p
+        return ("let", t[1], t[2], t[3], sub)
     if k == "lmatch":
         br = {n: (us, simp(s)) for n, (us, s) in t[2].items()}
         d = simp(t[3])
@@ -1226,6 +1280,17 @@ def simp(t):
             return FAIL
         return ("lmatch", t[1], br, d, t[4])
     raise AssertionError(t)
+
+
+def total(t, want):
+    """fold a tree of ifs over leaves of one scalar kind into a single term (if c then a else b)"""
+    if t[0] == "leaf" and isinstance(t[1], want):
+        return t[1]
+    if t[0] == "if":
+        a, b = total(t[2], want), total(t[3], want)
+        if a is not None and b is not None and type(a) is type(b) and isinstance(a, (VInt, VBool)):
+            return type(a)(("ite", t[1], a.t, b.t))
+    return None
 
 
 def fv_val(v, acc):
@@ -1272,7 +1337,7 @@ def fv_tree(t, acc):
 RESERVED = set("""fst snd map sv zlookup rlookup zmem smem sort2 sort2_by sort2_lex strain_ltb b2z obind digits
     digits_fuel option_eqb strain_eqb modkey_eqb strain modkey voigt_table negb true false Some None if then else
     match with end fun let in as return forall exists fix cofix Type Prop Set Z nat bool list option at using
-    where mod e is_shear is_longitudinal is_off_diagonal multiplicity strain_from_voigt strain_from_standard
+    where mod is_shear is_longitudinal is_off_diagonal multiplicity strain_from_voigt strain_from_standard
     mod_from_voigt mod_from_standard mod_voigt mod_standard strain_create mod_create mod_create_int""".split())
 
 
@@ -1441,9 +1506,9 @@ def translate(src: str) -> str:
     if t[0] == "bind" and t[1] == ("rlookup", var("s", "S")) and t[4][0] == "leaf" and isinstance(t[4][1], VInt) \
             and t[4][1].t == ("var", t[2], "Z"):
         sv_def = "Definition sv (s : strain) : Z := match rlookup s voigt_table with Some v => v | None => 0 end."
-    elif t[0] == "leaf" and isinstance(t[1], (VInt, VBool)):
+    elif total(t, (VInt, VBool)) is not None:
         tp = TreePrinter(["s"], {}, "S")
-        sv_def = "Definition sv (s : strain) : Z := %s." % strip(tp.pr.t(ev.as_z(t[1], fn)))
+        sv_def = "Definition sv (s : strain) : Z := %s." % strip(tp.pr.t(ev.as_z(total(t, (VInt, VBool)), fn)))
         finish(tp)
         if "(sv " in sv_def:
             bail(fn, "StrainRepresentation.voigt refers to itself")
@@ -1526,10 +1591,11 @@ def translate(src: str) -> str:
             bail(fn, "ModulusRepresentation.%s must be a property" % name)
         t, _, _ = scenario(lambda: ev.call_inline(fn, [VMod(var("m", "M"))], {}, fn))
         want = VInt if name == "multiplicity" else VBool
-        if t[0] != "leaf" or not isinstance(t[1], want):
+        tv_ = total(t, want)
+        if tv_ is None:
             bail(fn, "ModulusRepresentation.%s must be a total %s expression" % (name, "integer" if want is VInt else "boolean"))
         tp = TreePrinter(["m"], {}, "M")
-        defs[name] = tp.pr.t(t[1].t)
+        defs[name] = tp.pr.t(tv_.t)
         finish(tp)
     mu = defs.pop("multiplicity")
     if "(multiplicity m)" in mu:
